@@ -1,39 +1,70 @@
-/- C02: property theorems.  Level claimed for the property: translation validation (checks/C02.py); what is PROVED is the
-   emit layer below, on local slots.  No theorem is claimed for compile.c / specials.c.
-
-   Missing for the full-strength `emit_sss_correct` of DESIGN.md (hence the `_partial` names): operand kinds upvalue,
-   constant and ref (`janetc_movenear` / `janetc_moveback` through LOAD_UPVALUE / SET_UPVALUE / LOAD_CONSTANT /
-   GET_INDEX / PUT_INDEX), the `_s`, `_ss`, `_si` shapes (which go through `janetc_regfar`), and the identification of
-   `Emit.exec` with `Bytecode.Exec.step` on MOVE_NEAR / MOVE_FAR.  `sem_context_free` (reference semantics in Lean,
-   `Lang/Sem.lean`) is not written; the reference semantics that is used is harness/C02/refint.py. -/
+/- C02: property theorems.  Level claimed for the property: translation validation (checks/C02.py); what is PROVED is
+   (1) the emit layer: for every combination of slot kinds (near local, far local, upvalue, constant, ref) and every index,
+       the instruction sequence emit.c produces around an operation has exactly the abstract three-address effect on the
+       named slots and changes nothing but temporaries; the temporaries the allocator hands out are disjoint;
+   (2) context independence of the Lean reference semantics (`sem_context_free`, Lang/Sem.lean).
+   The emit model is compared word for word with the real emit.c / regalloc.c on every run (harness/C02/emit_wrap.c).
+   No theorem is claimed for compile.c / specials.c. -/
 import JanetModel.Emit.Proofs
 import JanetModel.Bytecode.Exec
 namespace JanetModel.Props.C02
 open JanetModel.Emit
 
-/-- `janetc_emit_sss` (wr = 1) on local slots, every near/far combination and every index: the destination receives
-    `f a b` of the original operand values, every non-temporary register keeps its value. -/
-theorem emit_sss_correct_partial {α : Type} (f : α → α → α) (g : Nat → α → α) (regs : Nat → α) (op dest a b t0 t1 t2 : Nat)
-    (h01 : t0 ≠ t1) (h02 : t0 ≠ t2) (h12 : t1 ≠ t2)
-    (hd0 : dest ≠ t0) (hd1 : dest ≠ t1) (hd2 : dest ≠ t2)
-    (ha0 : a ≠ t0) (ha1 : a ≠ t1) (ha2 : a ≠ t2)
-    (hb0 : b ≠ t0) (hb1 : b ≠ t1) (hb2 : b ≠ t2) :
-    ∀ r, r ≠ t0 → r ≠ t1 → r ≠ t2 →
-      run f g regs (emitSSS op dest a b t0 t1 t2) r = if r = dest then f (regs a) (regs b) else regs r :=
-  JanetModel.Emit.emit_sss_correct f g regs op dest a b t0 t1 t2 h01 h02 h12 hd0 hd1 hd2 ha0 ha1 ha2 hb0 hb1 hb2
+variable {β : Type}
 
-/-- `janetc_emit_ssi` / `janetc_emit_ssu` (wr = 1) on local slots -/
-theorem emit_ssi_correct_partial {α : Type} (f : α → α → α) (g : Nat → α → α) (regs : Nat → α) (op dest a imm t0 t1 : Nat)
-    (h01 : t0 ≠ t1) (hd0 : dest ≠ t0) (hd1 : dest ≠ t1) (ha0 : a ≠ t0) (ha1 : a ≠ t1) :
-    ∀ r, r ≠ t0 → r ≠ t1 →
-      run f g regs (emitSSI op dest a imm t0 t1) r = if r = dest then g imm (regs a) else regs r :=
-  JanetModel.Emit.emit_ssi_correct f g regs op dest a imm t0 t1 h01 hd0 hd1 ha0 ha1
+/-- `janetc_emit_sss`.  `Sim T a b`: states equal except for the registers in `T`.  `s.avoids T`: a local slot is not one of
+    the temporaries (allocator: `regtemp_disjoint`). -/
+theorem emit_sss_correct (lit : KConst → β) (F : Nat → List (RV β) → RV β) (cidx : KConst → Nat) (m : M β) (op : Nat) (wr : Bool)
+    (s1 s2 s3 : Slot) (t0 t1 t2 t5 : Nat) (h01 : t0 ≠ t1) (h02 : t0 ≠ t2) (h12 : t1 ≠ t2) (h50 : t5 ≠ t0)
+    (a1 : s1.avoids [t0, t1, t2, t5]) (a2 : s2.avoids [t0, t1, t2, t5]) (a3 : s3.avoids [t0, t1, t2, t5])
+    (hw : wr = true → ∀ k, s1 ≠ .const k) :
+    Sim [t0, t1, t2, t5] (run lit F m (emitSSS cidx op wr s1 s2 s3 t0 t1 t2 t5))
+      (if wr then writeSlot (logged m op [readSlot lit m s2, readSlot lit m s3]) s1 (F op [readSlot lit m s2, readSlot lit m s3])
+       else logged m op [readSlot lit m s1, readSlot lit m s2, readSlot lit m s3]) :=
+  JanetModel.Emit.emit_sss_correct lit F cidx m op wr s1 s2 s3 t0 t1 t2 t5 h01 h02 h12 h50 a1 a2 a3 hw
 
-/-- `janetc_copy` between local slots -/
-theorem copy_correct_partial {α : Type} (f : α → α → α) (g : Nat → α → α) (regs : Nat → α) (dest src t3 : Nat)
-    (hd : dest ≠ t3) (hs : src ≠ t3) :
-    ∀ r, r ≠ t3 → run f g regs (copy dest src t3) r = if r = dest then regs src else regs r :=
-  JanetModel.Emit.copy_correct f g regs dest src t3 hd hs
+theorem emit_ssi_correct (lit : KConst → β) (F : Nat → List (RV β) → RV β) (cidx : KConst → Nat) (m : M β) (op : Nat) (wr : Bool)
+    (s1 s2 : Slot) (imm : Nat) (t0 t1 t5 : Nat) (h01 : t0 ≠ t1) (h50 : t5 ≠ t0)
+    (a1 : s1.avoids [t0, t1, t5]) (a2 : s2.avoids [t0, t1, t5]) (hw : wr = true → ∀ k, s1 ≠ .const k) :
+    Sim [t0, t1, t5] (run lit F m (emitSSI cidx op wr s1 s2 imm t0 t1 t5))
+      (if wr then writeSlot (logged m op [readSlot lit m s2]) s1 (F op [readSlot lit m s2])
+       else logged m op [readSlot lit m s1, readSlot lit m s2]) :=
+  JanetModel.Emit.emit_ssi_correct lit F cidx m op wr s1 s2 imm t0 t1 t5 h01 h50 a1 a2 hw
+
+/-- `janetc_emit_ssu` is the same function (`emit2s`) with an unsigned immediate -/
+theorem emit_ssu_correct (lit : KConst → β) (F : Nat → List (RV β) → RV β) (cidx : KConst → Nat) (m : M β) (op : Nat) (wr : Bool)
+    (s1 s2 : Slot) (imm : Nat) (t0 t1 t5 : Nat) (h01 : t0 ≠ t1) (h50 : t5 ≠ t0)
+    (a1 : s1.avoids [t0, t1, t5]) (a2 : s2.avoids [t0, t1, t5]) (hw : wr = true → ∀ k, s1 ≠ .const k) :
+    Sim [t0, t1, t5] (run lit F m (emitSSI cidx op wr s1 s2 imm t0 t1 t5))
+      (if wr then writeSlot (logged m op [readSlot lit m s2]) s1 (F op [readSlot lit m s2])
+       else logged m op [readSlot lit m s1, readSlot lit m s2]) :=
+  JanetModel.Emit.emit_ssi_correct lit F cidx m op wr s1 s2 imm t0 t1 t5 h01 h50 a1 a2 hw
+
+theorem emit_ss_correct (lit : KConst → β) (F : Nat → List (RV β) → RV β) (cidx : KConst → Nat) (m : M β) (op : Nat) (wr : Bool)
+    (s1 s2 : Slot) (t0 t1 fr t5 : Nat) (h01 : t0 ≠ t1) (h0f : t0 ≠ fr) (h50 : t5 ≠ t0)
+    (a1 : s1.avoids [t0, t1, fr, t5]) (a2 : s2.avoids [t0, t1, fr, t5]) (hw : wr = true → ∀ k, s1 ≠ .const k) :
+    Sim [t0, t1, fr, t5] (run lit F m (emitSS cidx op wr s1 s2 t0 t1 fr t5))
+      (if wr then writeSlot (logged m op [readSlot lit m s2]) s1 (F op [readSlot lit m s2])
+       else logged m op [readSlot lit m s1, readSlot lit m s2]) :=
+  JanetModel.Emit.emit_ss_correct lit F cidx m op wr s1 s2 t0 t1 fr t5 h01 h0f h50 a1 a2 hw
+
+theorem emit_si_correct (lit : KConst → β) (F : Nat → List (RV β) → RV β) (cidx : KConst → Nat) (m : M β) (op : Nat) (wr : Bool)
+    (s : Slot) (imm : Nat) (t0 t5 : Nat) (h50 : t5 ≠ t0) (a1 : s.avoids [t0, t5]) (hw : wr = true → ∀ k, s ≠ .const k) :
+    Sim [t0, t5] (run lit F m (emitSI cidx op wr s imm t0 t5))
+      (if wr then writeSlot (logged m op []) s (F op []) else logged m op [readSlot lit m s]) :=
+  JanetModel.Emit.emit_si_correct lit F cidx m op wr s imm t0 t5 h50 a1 hw
+
+theorem emit_s_correct (lit : KConst → β) (F : Nat → List (RV β) → RV β) (cidx : KConst → Nat) (m : M β) (op : Nat) (wr : Bool)
+    (s : Slot) (t0 fr t5 : Nat) (h50 : t5 ≠ t0) (h5f : t5 ≠ fr) (a1 : s.avoids [t0, fr, t5]) (hw : wr = true → ∀ k, s ≠ .const k) :
+    Sim [t0, fr, t5] (run lit F m (emitS cidx op wr s t0 fr t5))
+      (if wr then writeSlot (logged m op []) s (F op []) else logged m op [readSlot lit m s]) :=
+  JanetModel.Emit.emit_s_correct lit F cidx m op wr s t0 fr t5 h50 h5f a1 hw
+
+/-- `janetc_copy`, all 4 (writable) x 5 kind combinations -/
+theorem copy_correct (lit : KConst → β) (F : Nat → List (RV β) → RV β) (cidx : KConst → Nat) (m : M β) (dest src : Slot) (t3 t5 : Nat)
+    (h35 : t3 ≠ t5) (ad : dest.avoids [t3, t5]) (as : src.avoids [t3, t5]) (hc : ∀ k, dest ≠ .const k) :
+    Sim [t3, t5] (run lit F m (copy cidx dest src t3 t5)) (writeSlot m dest (readSlot lit m src)) :=
+  JanetModel.Emit.copy_correct lit F cidx m dest src t3 t5 h35 ad as hc
 
 /-- temporaries for distinct tags held together are distinct near registers; each is a previously free register or a
     reserved one (0xF0+tag), which first-fit allocation never hands out -/
@@ -46,17 +77,25 @@ theorem regtemp_disjoint (ra : RA) (fuel tag1 tag2 : Nat) (ht : tag1 ≠ tag2) (
     r1 ≠ r2 ∧ r1 ≤ 0xFF ∧ r2 ≤ 0xFF ∧ (ra.alloc r1 = false ∨ 0xF0 ≤ r1) ∧ (ra.alloc r2 = false ∨ 0xF0 ≤ r2) :=
   JanetModel.Emit.regtemp_disjoint ra fuel tag1 tag2 ht h1 h2 hfree1 hfree2
 
-/-! non-vacuity: far destination, near and far operands, reserved temporaries (more than 255 live locals) -/
-example : run (fun x y => x + y) (fun i x => x + i) (fun r => 10 * r) (emitSSS 6 300 5 70000 0xF0 0xF1 0xF2) 300 = 700050 := by
+/-- the allocator function that is compared with regalloc.c returns what `regtemp_disjoint` talks about -/
+theorem regtemp_model_eq (ra : RA) (tag : Nat) :
+    (ra.allocTemp tag).1 = (regallocTemp ra searchFuel tag).1 ∧
+    ∀ x, (ra.allocTemp tag).2.alloc x = (regallocTemp ra searchFuel tag).2.alloc x :=
+  JanetModel.Emit.allocTemp_eq ra tag
+
+/-! non-vacuity: > 255 live locals, far destination, upvalue and ref operands, reserved temporaries -/
+def m0 : M Nat := { regs := fun r => .v (10 * r), up := fun e i => .v (1000 + e + i), cell := fun id => .v (7000 + id), log := [], ok := true }
+def litN : KConst → Nat | .int n => n.toNat | _ => 0
+def FN : Nat → List (RV Nat) → RV Nat := fun _ vs => .v (vs.foldl (fun a v => match v with | .v b => a + b | .ref _ => a) 0)
+
+example : (emitSSS (fun _ => 0) 6 true (.loc 300) (.up 1 2) (.ref 3) 0xF0 0xF1 0xF2 0xF5).map MI.word =
+    [(MI.movn 0xF0 300).word, (MI.ldu 0xF1 1 2).word, (MI.ldref 0xF2 0 3).word, (MI.geti0 0xF2 0xF2).word,
+     (MI.pay 6 .sss true [0xF0, 0xF1, 0xF2] 0).word, (MI.movf 0xF0 300).word] := by decide
+def valOf : RV Nat → Nat | .v x => x | .ref _ => 4000000000
+example : valOf ((run litN FN m0 (emitSSS (fun _ => 0) 6 true (.loc 300) (.up 1 2) (.ref 3) 0xF0 0xF1 0xF2 0xF5)).regs 300) = 1003 + 7003 := by
   decide
-example : run (fun x y => x + y) (fun i x => x + i) (fun r => 10 * r) (emitSSS 6 300 5 70000 0xF0 0xF1 0xF2) 299 = 2990 := by
+example : valOf ((run litN FN m0 (emitSSS (fun _ => 0) 6 true (.ref 1) (.const (.int 70000)) (.loc 299) 0xF0 0xF1 0xF2 0xF5)).cell 1) = 70000 + 2990 := by
   decide
-example : (emitSSS 6 300 5 70000 0xF0 0xF1 0xF2).map MI.word =
-    [(MI.movn 0xF0 300).word, (MI.movn 0xF2 70000).word, (MI.op3 6 0xF0 5 0xF2).word, (MI.movf 0xF0 300).word] := by
-  decide
-/-- with 300 registers in use the temporaries for tags 0 and 1 are the reserved 0xF0 and 0xF1 -/
-example : (regallocTemp { alloc := fun r => r < 300 } 400 0).1 = 0xF0 ∧
-    (regallocTemp (regallocTemp { alloc := fun r => r < 300 } 400 0).2 400 1).1 = 0xF1 := by
-  decide +kernel
+example : (Slot.loc 300).avoids [0xF0, 0xF1, 0xF2, 0xF5] := by intro i h; injection h with h; subst h; decide
 
 end JanetModel.Props.C02
